@@ -29,7 +29,7 @@ def main(tier):
             "The static (alignment, offset) claimed for a sub-buffer depends on the parent's and on the relative alignment and offset (R-SUBALIGN, dependency of each template argument); the overflow guard of the text integer decoder depends on every operand of the update it protects, so UpdateFromText cannot overflow a signed accumulator (R-GUARDDEPS); the size of a sub-buffer handed out by ContiguousBuffer::GetOffsetStorage is the smaller of the request and what is left of the parent, with the unsigned difference guarded against wrap-around (R-CLAMP). "
             "Not decided: absence of out-of-bounds access for all buffers and dynamic offsets; correctness of the alignment arithmetic itself."))
     chk.run("R-NOABORT", C.noabort, cx.cpp, cx.templates, floor=12, control=lambda: cx.cpp_control)
-    chk.run("R-SIBLING", C.sibling, cx.cpp, floor=80, control=lambda: cx.cpp_control)
+    chk.run("R-SIBLING", C.sibling, cx.cpp, methods=('Ok', 'IsComplete', 'TryToWrite', 'TryToCopyFrom'), floor=80, control=lambda: cx.cpp_control)
     chk.run("R-ACCESSOR", B.accessor, cx.repo, floor=5)
     chk.run("R-COPY", C.copy_rule, cx.cpp, cx.templates, floor=6)
     chk.run("R-WIDTHS", lambda: cx.widths, floor=3000)
